@@ -39,6 +39,13 @@ def main(argv):
     try:
         cx.ensure()
         level_text = props.run(cx)
+        if tier == "thorough" and not os.environ.get("SASV_REPO"):
+            from . import selftest
+            if not selftest.run(cx):
+                bad = [m for m in cx.analysed["selftest"]["mutants"] + cx.analysed["selftest"]["benign"] if not m.get("ok")]
+                cx.finish(level_text)
+                print("BROKEN-CHECK property=%s: checker self-test failed on %s" % (pid, [b["label"] for b in bad]))
+                return 2
         return cx.finish(level_text)
     except report.Broken as ex:
         print("BROKEN-CHECK property=%s: %s" % (pid, ex))
